@@ -109,14 +109,14 @@ def _result(c, body):
     return {"response": body.get("scope"), "embedded": emb}
 
 
-def impl(c):
+def impl_one(c, framework=None):
     w = c.get("warmup")
-    store, srv, rp = ms.build(scopes_supported=w["supported"] if w else c["supported"], oidc=False)
+    store, srv, rp = ms.build(scopes_supported=w["supported"] if w else c["supported"], oidc=False, framework=framework)
     srv.register_grant(ms.JwtBearerGrant)
     _install_generator(srv, store, c["gen"])
     store.clients["c1"] = Client("c1", "s1", ["https://c1/cb"], c["allowed"], ms.ALL_GRANT_TYPES, ms.ALL_RESPONSE_TYPES)
     if w:
-        srv.create_token_response(Req("POST", "https://as.example/token", form=dict(grant_type="client_credentials", scope=w["requested"]), headers=ms.basic("c1", "s1")))
+        ms.fw_call(srv, Req("POST", "https://as.example/token", form=dict(grant_type="client_credentials", scope=w["requested"]), headers=ms.basic("c1", "s1")), "create_token_response")
         srv.scopes_supported = c["supported"]
     store.clients["p1"] = Client("p1", "", ["https://p1/cb"], c["allowed"], ms.ALL_GRANT_TYPES, ms.ALL_RESPONSE_TYPES, method="none")
     hdr = ms.basic("c1", "s1")
@@ -132,42 +132,56 @@ def impl(c):
     TOK = "https://as.example/token" + qs
     user = store.users[1]
     if grant == "implicit":
-        r = srv.create_authorization_response(Req("GET", "https://as.example/authorize" + qs, dict(response_type="token", client_id="p1", **sc)), grant_user=user)
+        r = ms.fw_call(srv, Req("POST", "https://as.example/authorize" + qs, dict(response_type="token", client_id="p1", **sc)), "create_authorization_response", grant_user=user)
         loc = dict(r.headers).get("Location", "")
         frag = dict(parse_qsl(urlparse(loc).fragment, keep_blank_values=True))
         return _result(c, frag if loc else dict(r.body))
     if grant == "password":
-        r = srv.create_token_response(Req("POST", TOK, form=dict(grant_type="password", username="1", password="pw", **sc), headers=hdr))
+        r = ms.fw_call(srv, Req("POST", TOK, form=dict(grant_type="password", username="1", password="pw", **sc), headers=hdr), "create_token_response")
         return _result(c, r.body)
     if grant == "client_credentials":
-        r = srv.create_token_response(Req("POST", TOK, form=dict(grant_type="client_credentials", **sc), headers=hdr))
+        r = ms.fw_call(srv, Req("POST", TOK, form=dict(grant_type="client_credentials", **sc), headers=hdr), "create_token_response")
         return _result(c, r.body)
     if grant in ("jwt_bearer", "jwt_bearer_nosub"):
         a = ms.jwt_bearer_assertion("c1", **({"sub": None} if grant == "jwt_bearer_nosub" else {}))      # an assertion without sub: the client acts for itself
-        r = srv.create_token_response(Req("POST", TOK, form=dict(grant_type=ms.JWT_BEARER, assertion=a.decode() if isinstance(a, bytes) else a, **sc)))
+        r = ms.fw_call(srv, Req("POST", TOK, form=dict(grant_type=ms.JWT_BEARER, assertion=a.decode() if isinstance(a, bytes) else a, **sc)), "create_token_response")
         return _result(c, r.body)
     if grant == "authorization_code":
-        r = srv.create_authorization_response(Req("POST", "https://as.example/authorize" + qs, dict(response_type="code", client_id="c1", **sc)), grant_user=user)
+        r = ms.fw_call(srv, Req("POST", "https://as.example/authorize" + qs, dict(response_type="code", client_id="c1", **sc)), "create_authorization_response", grant_user=user)
         loc = dict(r.headers).get("Location", "")
         q = dict(parse_qsl(urlparse(loc).query, keep_blank_values=True)) if loc else dict(r.body)
         if "error" in q:
             return {"error": q["error"]}
-        r = srv.create_token_response(Req("POST", form=dict(grant_type="authorization_code", code=q["code"]), headers=hdr))
+        r = ms.fw_call(srv, Req("POST", form=dict(grant_type="authorization_code", code=q["code"]), headers=hdr), "create_token_response")
         return _result(c, r.body)
     if grant == "device_code":
-        r = srv.create_endpoint_response("device_authorization", Req("POST", "https://as.example/device" + qs, form=dict(client_id="c1", **sc), headers=hdr))
+        r = ms.fw_call(srv, Req("POST", "https://as.example/device" + qs, form=dict(client_id="c1", **sc), headers=hdr), "create_endpoint_response", "device_authorization")
         if "error" in r.body:
             return {"error": r.body["error"]}
         store.user_grants[r.body["user_code"]] = (1, True)
-        r = srv.create_token_response(Req("POST", form=dict(grant_type="urn:ietf:params:oauth:grant-type:device_code",
-                                                            device_code=r.body["device_code"]), headers=hdr))
+        r = ms.fw_call(srv, Req("POST", form=dict(grant_type="urn:ietf:params:oauth:grant-type:device_code",
+                                                            device_code=r.body["device_code"]), headers=hdr), "create_token_response")
         return _result(c, r.body)
     if grant == "refresh_token":
         store.tokens.append(Token(_store=store, access_token="old-at", refresh_token="old-rt", client_id="c1", user_id=1,
                                   scope=c["original"], expires_in=3600, issued_at=CLOCK(), token_type="Bearer"))
-        r = srv.create_token_response(Req("POST", TOK, form=dict(grant_type="refresh_token", refresh_token="old-rt", **sc), headers=hdr))
+        r = ms.fw_call(srv, Req("POST", TOK, form=dict(grant_type="refresh_token", refresh_token="old-rt", **sc), headers=hdr), "create_token_response")
         return _result(c, r.body)
     raise AssertionError(grant)
+
+
+def impl(c):
+    """the core server, and the same request through the Flask and Django integrations (scopes_supported comes from their configuration)"""
+    base = impl_one(c)
+    out = dict(base)
+    # (query and form carrying DIFFERENT values of one parameter is read differently by Flask — query first — and by the core / Django
+    #  wrappers — form first; the property does not say which, so that placement is exercised on the core server only)
+    if not c.get("warmup") and c.get("place") != "both":
+        for fw in ("flask", "django"):
+            o = impl_one(c, fw)
+            if o != base:
+                out["differs:" + fw] = o
+    return out
 
 
 def W(s):
@@ -175,6 +189,14 @@ def W(s):
 
 
 def oracle(c, out):
+    v = oracle_one(c, {k: x for k, x in out.items() if not k.startswith("differs:")})
+    for fw in ("flask", "django"):
+        if "differs:" + fw in out:
+            v += [(f"[{fw} integration] " + what, dict(sig, fw=fw)) for what, sig in oracle_one(c, out["differs:" + fw])]
+    return v
+
+
+def oracle_one(c, out):
     """the property statement, evaluated directly on what the real code answered"""
     v = []
     rq, og, sup, al = c["requested"], c["original"], c["supported"], c["allowed"]
